@@ -17,7 +17,7 @@ HOOK_COMMITS = [
 
 ALL_POLICIES = ["fifo", "lru", "lfu", "arc", "random", "tlru"]
 
-def core_stream(filters=None, nontrivial=(), quick=360, thorough=7200, what="", enumerate_=None):
+def core_stream(filters=None, nontrivial=(), quick=360, thorough=20000, what="", enumerate_=None):
     return {
         "kind": "core",
         "what": what or "L1: real GlobalCache / ThreadLocalCache / AsyncGlobalCache over harness-owned stores vs Cachelito.step, full state per step",
@@ -30,7 +30,7 @@ def core_stream(filters=None, nontrivial=(), quick=360, thorough=7200, what="", 
 
 SMALL_SCOPE = [(fl, pol, lim, 5) for fl in ("global", "thread", "async") for pol in ALL_POLICIES for lim in (1, 2)]
 
-def macro_stream(nontrivial=(), quick=320, thorough=5000, what=""):
+def macro_stream(nontrivial=(), quick=320, thorough=12000, what=""):
     return {
         "kind": "macro",
         "what": what or "L2: real #[cache]/#[cache_async] generated functions (corpus of 82 decorated functions: 48 random attribute x signature x return-type combinations, 4 fixed ones, 30 systematic flavour x policy combinations with limit+invalidate_on / max_memory+cache_if), real invalidation and statistics registries, real threads for thread scope, virtual time through the verif hooks vs Cachelito.sysStep; outputs, predicate logs, statistics and the dump of every cache instance compared per operation",
@@ -39,11 +39,11 @@ def macro_stream(nontrivial=(), quick=320, thorough=5000, what=""):
         "nontrivial": list(nontrivial),
     }
 
-def sched_stream(nontrivial=(), quick=(6, 4, 120), thorough=(14, 8, 400), what=""):
+def sched_stream(nontrivial=(), quick=(6, 4, 120), thorough=(36, 10, 1000), what=""):
     return {"kind": "sched", "budget": {"quick": quick, "thorough": thorough}, "nontrivial": list(nontrivial),
             "what": what or "L3: 2-3 real threads running short programs (calls that overflow a hot cache, tag/event/name/conditional invalidations, statistics queries) on real generated functions under a deterministic scheduler that switches at every lock acquisition (hook H1): seeded random schedules, then stateless DFS (exhaustive when the space fits the budget); deadlock = all unfinished threads parked at held locks; every operation's real lock trace checked against the Lean skeleton; the real schedule replayed on the data-carrying interleaving model; quiescent dumps; sequential probe history vs the model"}
 
-def hammer_stream(quick=(3, 8, 400), thorough=(10, 12, 1500)):
+def hammer_stream(quick=(3, 8, 400), thorough=(20, 12, 2500)):
     return {"kind": "hammer", "budget": {"quick": quick, "thorough": thorough}, "nontrivial": [],
             "what": "free-running parallel stress: 8-12 real threads call plain generated functions (sync global and async) whose results are already stored, with large values; any body execution or wrong value is a violation for SOME real schedule (the scheduler of the L3 stream serialises threads and cannot contend inside DashMap shards)"}
 
@@ -161,7 +161,7 @@ PROPS = {
     },
     "C08": {
         "lean_modules": ["Cachelito.Props.C08"],
-        "streams": [core_stream(filters=[["policy=lfu"], ["policy=arc"], ["policy=tlru"]], nontrivial=["eviction"], quick=420, thorough=9000)],
+        "streams": [core_stream(filters=[["policy=lfu"], ["policy=arc"], ["policy=tlru"]], nontrivial=["eviction"], quick=420, thorough=24000)],
         "monitors": ["C08"],
         "rule": "LFU / ARC / TLRU episodes on all three engines, limits 1..4, ttl none/1..3, frequency_weight none/0.1/0.3/1/1.5/3, entry and memory pressure; non-trivial = a store that evicted; the driver mirrors the f64 score exactly",
         "level_text": "Lean theorems: the victim scan returns the FIRST minimiser of the policy's score among stored queue keys for any strict-weak-order comparison (LFU: hits; ARC: hits x rank; TLRU: any scorer), every eviction of a store (limit step and memory loop) is such a victim; LFU victims have the fewest successful lookups (hit counters equal the history's count); async ARC/TLRU: among equally popular entries the least recently used goes first; sync engines: the victim is the first entry with a zero factor, so weight form and rank orientation are unobservable there; TLRU without ttl and weight coincides with ARC on every history.",
@@ -259,7 +259,7 @@ PROPS = {
     },
     "C16": {
         "lean_modules": ["Cachelito.Props.C16", "Cachelito.Props.C05a", "Cachelito.Props.C16s"],
-        "streams": [core_stream(nontrivial=["eviction", "expiry", "oversize"], quick=540, thorough=9000,
+        "streams": [core_stream(nontrivial=["eviction", "expiry", "oversize"], quick=540, thorough=24000,
                                 what="L1 over the full product flavour x policy x limit x ttl x max_memory x fw; every operation under catch_unwind, debug assertions and overflow checks on")],
         "monitors": ["C16"],
         "rule": "every operation of every generated episode runs under catch_unwind with overflow checks on; non-trivial = a step that evicts, purges or takes the oversize path (the paths that used to panic)",
